@@ -511,6 +511,11 @@ def run(ctx: Any, prog: Program) -> None:
             if not isinstance(lp_, ast.For):
                 continue
             it_ = lp_.iter
+            if isinstance(it_, ast.Name):
+                # a local assigned once (`named = list(self.by_target.items())`) stands for its definition
+                defs_it = [a.value for a in walk_no_nested(mfn_) if isinstance(a, ast.Assign) and any(isinstance(t, ast.Name) and t.id == it_.id for t in a.targets)]
+                if len(defs_it) == 1:
+                    it_ = defs_it[0]
             base_ = it_.func.value if isinstance(it_, ast.Call) and isinstance(it_.func, ast.Attribute) and it_.func.attr in ('items', 'keys', 'values') else it_
             snap_ = isinstance(it_, ast.Call) and dotted(it_.func) in ('list', 'tuple', 'sorted', 'frozenset', 'set') and it_.args and any(index_of(x) for x in ast.walk(it_.args[0]))
             live_ = index_of(base_) is not None
